@@ -32,6 +32,7 @@ fn run(prop: &str, unit: &str, outp: &str) {
         late_timeout_s: env_u64("VERIF_LATE_TIMEOUT", 2),
         threads: env_u64("VERIF_THREADS", 4) as usize,
         flip_timeout_s: env_u64("VERIF_FLIP_TIMEOUT", env_u64("VERIF_QTIMEOUT", 30)),
+        narrow_flips: env_u64("VERIF_NARROW_FLIPS", 0) == 1,
     };
     let mut ex = Explorer::new(opts);
     let rep = ex.run_unit(unit, &|| props::scenario(prop, &u));
